@@ -560,6 +560,7 @@ func H_C09_callComment(mods, legacy, n int) {
 var c09Floats = []string{
 	"0.5", "-1.3", "-2.7", "-0.3", "-0.001", "-10.2", "-2000.1", "-0.05", "-63.9", "-1.5", "-4", "1.3", "2.7",
 	"0.0009765625", "7.9999", "1.0001", "3", "0.1", "100.25", "-0.0001", "64", "0.33333", "12.125", "-7.5",
+	"1e16", "-1e16", "3e38", "9007199254740992",
 }
 
 func c09ResourceSrc(mem, vmem, threads string) string {
